@@ -11,7 +11,7 @@ pub struct Finding {
 }
 
 pub fn load() -> Vec<Finding> {
-    let path = format!("{}/known_findings.json", crate::infra::VERIF_DIR);
+    let path = format!("{}/known_findings.json", crate::infra::verif_dir());
     let Ok(text) = std::fs::read_to_string(&path) else {
         return vec![];
     };
